@@ -5,7 +5,8 @@ import EmmyVerif.Lemmas.FlowSound
 Model: `EmmyVerif/Model/Flow.lean` (type algebra) and `EmmyVerif/Model/FlowProg.lean` (`F`, `Sem` = `Prog.run`,
 `TypeAt` = `Prog.typeAt`). The theorems hold for **every** program of `F` (any number of variables, any
 nesting of `if/elseif/else`, any `not/and/or` combination of the guards `x`, `type(x) == "T"`,
-`type(x) ~= "T"`, `x == nil`, `x ~= nil`, any literal assignments); there is no bound on program size.
+`type(x) ~= "T"`, `x == nil`, `x ~= nil`, `x == <literal>`, `x ~= <literal>`, `t_x == "T"` for a stored
+`local t_x = type(x)`, any literal assignments); there is no bound on program size.
 
 Outside `F` (search only, stated in the manifest): loops (C41), member paths, casts, correlated conditions,
 calls, the query cache of the real engine (the model evaluates each `(variable, node, mode)` query as a
@@ -26,30 +27,64 @@ def luaType : Atom → Option TName
 theorem has_luaType {a : Atom} {v : Val} (h : a.has v = true) : luaType a = some v.typeName := by
   cases a <;> cases v <;> simp_all [luaType, Atom.has, Val.typeName]
 
+/-- decidable form of the side condition for stored-type guards (`local t_x = type(v_x)` in the preamble,
+`t_x == "T"` in a condition): `S` lists the guarded variables with the stored string; the string is the `type()` of
+the variable's initial value, every such guard of the body is listed, and no listed variable is assigned.
+For a program without stored-type guards `S = []` and the condition says just that. -/
+def storedSafe (p : Prog) (S : List (Nat × TName)) : Bool :=
+  p.body.ok S && S.all fun q => (p.initEnv.get q.1).typeName == q.2
+
+theorem storedSafe_ok {p : Prog} {S : List (Nat × TName)} (h : storedSafe p S = true) :
+    p.body.ok S = true ∧ StoredOK S p.initEnv := by
+  simp only [storedSafe, Bool.and_eq_true, List.all_eq_true, beq_iff_eq] at h
+  exact ⟨h.1, fun q hq => h.2 q hq⟩
+
 /-- **narrow_sound.** If `Sem` reaches probe `id` while variable `x` holds `v`, the type `TypeAt` gives for
 `x` at that probe contains `v` (value level: a literal type such as `1` or `"a"` contains only that value,
-`true`/`false` are told apart). -/
-theorem narrow_sound (p : Prog) (id x : Nat) (v : Val) (h : (id, x, v) ∈ p.run) :
+`true`/`false` are told apart). Holds for every program of `F` whose stored-type guards (if any) are on variables
+that are never assigned (`storedSafe`; the current code violates the statement otherwise, `C15_witness_stored`). -/
+theorem narrow_sound (p : Prog) (S : List (Nat × TName)) (hS : storedSafe p S = true)
+    (id x : Nat) (v : Val) (h : (id, x, v) ∈ p.run) :
     ∃ t, (id, x, t) ∈ p.typeAt ∧ t.has v = true := by
-  have hs := (Block.aexec_sound p.decls.length p.declTy p.body p.initPt p.initEnv
-    (by simp [Prog.initEnv]) (initPt_wf p) (initPt_sound p)).2.2
-  exact hs (id, x, v) h
+  obtain ⟨hok, hst⟩ := storedSafe_ok hS
+  have hs := (Block.aexec_sound (W := fun _ => false) p.decls.length p.declTy p.body p.initPt p.initEnv
+    (by simp [Prog.initEnv]) hst hok (initPt_wf p) (initPt_sound p)).2.2.2
+  exact hs (id, x, v) h rfl
 
 /-- **narrow_sound**, as the property states it: the inferred type has a member whose Lua type is the
 runtime value's `type()`. In particular the inferred type is neither `never` nor `unknown`. -/
-theorem narrow_sound_type (p : Prog) (id x : Nat) (v : Val) (h : (id, x, v) ∈ p.run) :
+theorem narrow_sound_type (p : Prog) (S : List (Nat × TName)) (hS : storedSafe p S = true)
+    (id x : Nat) (v : Val) (h : (id, x, v) ∈ p.run) :
     ∃ t, (id, x, t) ∈ p.typeAt ∧ ∃ a ∈ t, luaType a = some v.typeName := by
-  obtain ⟨t, ht, hv⟩ := narrow_sound p id x v h
+  obtain ⟨t, ht, hv⟩ := narrow_sound p S hS id x v h
   obtain ⟨a, ha, hav⟩ := Ty.has_iff.mp hv
   exact ⟨t, ht, a, ha, has_luaType hav⟩
 
 /-- **unreachable_sound.** A probe whose inferred type has no members (`never`; also `unknown`, which `F` only
 produces on edges that cannot be taken) is never executed. -/
-theorem unreachable_sound (p : Prog) (id x : Nat)
+theorem unreachable_sound (p : Prog) (S : List (Nat × TName)) (hS : storedSafe p S = true) (id x : Nat)
     (h : ∀ t, (id, x, t) ∈ p.typeAt → t = [.never] ∨ t = [.unknown]) : ∀ v, (id, x, v) ∉ p.run := by
   intro v hv
-  obtain ⟨t, ht, hhas⟩ := narrow_sound p id x v hv
+  obtain ⟨t, ht, hhas⟩ := narrow_sound p S hS id x v hv
   rcases h t ht with rfl | rfl <;> simp [Ty.has, Atom.has] at hhas
+
+/-- **C15_witness_stored.** `local v0 = 1; local t0 = type(v0); v0 = "s1"; if t0 == "number" then p(0, v0) end`:
+the guard on the stale `t0` narrows `v0` to `number` while it holds a string (open known finding). -/
+def wStored : Prog :=
+  ⟨[some (.int 1)],
+   .cons (.assign 0 (.str 1))
+   (.cons (.ite (.leaf (.stored 0 .number .number false)) (.cons (.probe 0 0) .nil) .none) .nil)⟩
+
+theorem C15_witness_stored :
+    wStored.run = [(0, 0, .str 1)] ∧ wStored.typeAt = [(0, 0, [.number])] ∧
+    ¬ (∃ t, (0, 0, t) ∈ wStored.typeAt ∧ t.has (.str 1) = true) := by
+  have h2 : wStored.typeAt = [(0, 0, [.number])] := by decide
+  refine ⟨by decide, h2, ?_⟩
+  rintro ⟨t, ht, hv⟩
+  rw [h2] at ht
+  simp only [List.mem_cons, Prod.mk.injEq, true_and, List.not_mem_nil, or_false] at ht
+  subst ht
+  simp [Ty.has, Atom.has] at hv
 
 /-- The narrowing operations never exclude a possible runtime value: statement for each guard of `F`
 (these are the per-edge obligations `narrow_sound` rests on). -/
@@ -58,9 +93,10 @@ theorem guards_sound (t : Ty) (v : Val) (h : t.has v = true) :
     (v.truthy = false → (narrowFalseOrNil t).has v = true) ∧
     (∀ g : TName, v.typeName = g → (guardTrue t g.atom).has v = true) ∧
     (∀ g : TName, v.typeName ≠ g → (guardFalse t g.atom).has v = true) ∧
-    (∀ flow, (v == .nil) = flow → (eqNil t flow).has v = true) :=
+    (∀ (l : Lit) flow, (∀ i, l ≠ .tbl i) → (v == l.val) = flow → (eqLit t l.ty flow).has v = true) :=
   ⟨fun hv => removeFalseOrNil_sound hv h, fun hv => narrowFalseOrNil_sound hv h,
-   fun _ hg => guardTrue_sound hg h, fun _ hg => guardFalse_sound hg h, fun _ hf => eqNil_sound hf h⟩
+   fun _ hg => guardTrue_sound hg h, fun _ hg => guardFalse_sound hg h,
+   fun _ _ hl hf => eqLit_sound hl hf h⟩
 
 /-- Merging branches never loses a value (`TypeOps::Union`). -/
 theorem union_sound (s t : Ty) (v : Val) (h : s.has v = true ∨ t.has v = true) : (unionTy s t).has v = true :=
@@ -78,13 +114,13 @@ theorem assignment_sound (d : Atom) (src : Ty) (l : Lit) (h : canReuse src l.ty 
 def ex1 : Prog :=
   ⟨[some .nil],
    .cons (.assign 0 (.int 1))
-   (.cons (.ite (.truthy 0) (.cons (.probe 0 0) .nil) (.els (.cons (.probe 1 0) .nil)))
+   (.cons (.ite (.leaf (.truthy 0)) (.cons (.probe 0 0) .nil) (.els (.cons (.probe 1 0) .nil)))
    (.cons (.probe 2 0) .nil))⟩
 
 example : ex1.run = [(0, 0, .int 1), (2, 0, .int 1)] := by decide
 example : ex1.typeAt = [(0, 0, [.intC 1]), (1, 0, [.never]), (2, 0, [.intC 1])] := by decide
 example : ∀ v, (1, 0, v) ∉ ex1.run := by
-  apply unreachable_sound
+  apply unreachable_sound ex1 [] (by decide)
   intro t ht
   have hta : ex1.typeAt = [(0, 0, [.intC 1]), (1, 0, [.never]), (2, 0, [.intC 1])] := by decide
   rw [hta] at ht
@@ -95,12 +131,23 @@ example : ∀ v, (1, 0, v) ∉ ex1.run := by
 if type(v0) == "string" then p(1, v0) else p(2, v0) end` -/
 def ex2 : Prog :=
   ⟨[none, some (.bool true)],
-   .cons (.ite (.and (.truthy 1) (.typeIs 0 .nil false)) (.cons (.assign 0 (.str 1)) .nil)
+   .cons (.ite (.and (.leaf (.truthy 1)) (.leaf (.typeIs 0 .nil false))) (.cons (.assign 0 (.str 1)) .nil)
             (.els (.cons (.assign 0 (.int 2)) .nil)))
    (.cons (.probe 0 0)
-   (.cons (.ite (.typeIs 0 .string false) (.cons (.probe 1 0) .nil) (.els (.cons (.probe 2 0) .nil))) .nil))⟩
+   (.cons (.ite (.leaf (.typeIs 0 .string false)) (.cons (.probe 1 0) .nil) (.els (.cons (.probe 2 0) .nil))) .nil))⟩
 
 example : ex2.run = [(0, 0, .str 1), (1, 0, .str 1)] := by decide
 example : ex2.typeAt = [(0, 0, [.strC 1, .intC 2]), (1, 0, [.strC 1]), (2, 0, [.intC 2])] := by decide
+
+/-- `local v0 = 1; v0 = 2; if v0 == 2 then p(0, v0) else p(1, v0) end; if v0 ~= "s1" then p(2, v0) end` -/
+def ex3 : Prog :=
+  ⟨[some (.int 1)],
+   .cons (.assign 0 (.int 2))
+   (.cons (.ite (.leaf (.eqLit 0 (.int 2) false)) (.cons (.probe 0 0) .nil) (.els (.cons (.probe 1 0) .nil)))
+   (.cons (.ite (.leaf (.eqLit 0 (.str 1) true)) (.cons (.probe 2 0) .nil) .none) .nil))⟩
+
+example : storedSafe ex3 [] = true := by decide
+example : ex3.run = [(0, 0, .int 2), (2, 0, .int 2)] := by decide
+example : ex3.typeAt = [(0, 0, [.intC 2]), (1, 0, [.integer]), (2, 0, [.integer])] := by decide
 
 end C15
